@@ -36,8 +36,11 @@ def scope(tier, seed):
                       '{EG p, AF not p, E[p U not p], A[not p R p]}',
                 'NEG': 'all 148 labelled K(<=2) x %d negation-rich formulas (operators over literals, outer '
                        'negation, QX not QX towers)' % len(spaces.negated_ctl()),
-                'EDIT': 'histories query / edit the same object (every single added edge or toggled label) / '
-                        'query on the 82 representatives x 46 formulas',
+                'EDIT': 'histories query / edit the same object (every single added edge, toggled label, or a '
+                        'replaced labelling function with extra non-state keys) / query on the 82 '
+                        'representatives x 46 formulas',
+                'ATOMS': '82 representatives x 8 atom renamings (S/R, L/T, kripke/states, True/False, ...) x '
+                         'size<=1 and negation-rich formulas',
                 'B': '3836 iso-representatives of K(3) x 144 formulas size<=1',
                 'C': 'size-3 block %d of %d x 82 representatives of K(<=2)' % (seed % NB3, NB3)}
     return {'A': 'all 148 labelled K(<=2) x all 8964 formulas of size<=2',
@@ -65,6 +68,8 @@ def plan(tier, seed):
         sh.append(['NEG', lo, hi])
     for lo, hi in chunks(82, 2):
         sh.append(['EDIT', lo, hi])
+    for lo, hi in chunks(82, 4):
+        sh.append(['ATOMS', lo, hi])
     if tier == 'quick':
         for lo, hi in chunks(3836, 48):
             sh.append(['Brep', lo, hi])
@@ -88,6 +93,14 @@ def _forms_le(size, leaves=spaces.LEAVES4):
     for s in range(size + 1):
         out.extend(spaces.ctl_by_size(s, leaves))
     return out
+
+
+def rename_atoms(f, m):
+    if f[0] == 'ap':
+        return ('ap', m.get(f[1], f[1]))
+    if f[0] in ('t', 'f'):
+        return f
+    return (f[0],) + tuple(rename_atoms(x, m) for x in f[1:])
 
 
 def check_one(k, Kl, f, acc, audit=False, first=False):
@@ -149,6 +162,21 @@ def run_shard(shard, tier, seed, acc):
                 Kl = lib.to_kripke(k)
                 for f in full:
                     check_one(k, Kl, f, acc)
+        return
+    if kind == 'ATOMS':
+        # the same structures and formulas under other atom names: single capitals, names of the
+        # checker's own variables, look-alikes of the constants, non-identifier strings
+        maps = [{'p': 'S', 'q': 'R'}, {'p': 'L', 'q': 'T'}, {'p': 'kripke', 'q': 'states'},
+                {'p': 'True', 'q': 'False'}, {'p': 'formula', 'q': 'Lformula'}, {'p': 'p q', 'q': ''},
+                {'p': 'V', 'q': 'E'}, {'p': 'None', 'q': '0'}]
+        forms = _forms_le(1, spaces.LEAVES2) + spaces.negated_ctl()[::3]
+        for k in (spaces.kripke_reps(1) + spaces.kripke_reps(2))[shard[1]:shard[2]]:
+            for m in maps:
+                k2 = spaces.K(k.n, k.succ, [[m.get(a, a) for a in l] for l in k.lab])
+                Kl = lib.to_kripke(k2)
+                for f in forms:
+                    check_one(k2, Kl, rename_atoms(f, m), acc)
+        acc.sample({'atoms': ['S', 'R'], 'formula': 'A(G((S --> A(F(R)))))'})
         return
     if kind == 'NEG':
         forms = spaces.negated_ctl()
